@@ -175,7 +175,7 @@ def validate_trace(module, cfg, scratch, trace_path, shards=1, timeout=900, env=
     if shards <= 1 or n < 2 * shards:
         chunks = [lines]
     else:
-        has_ep = any('"ep_start":true' in ln for ln in lines[: min(n, 2000)])
+        has_ep = any('"ep_start":true' in ln for ln in lines)
         if not has_ep:
             # stateless events: deal round-robin so that heavy and light events mix
             chunks = [lines[i::shards] for i in range(shards)]
